@@ -356,7 +356,15 @@ func (c *throttlingTrafficShapingController) PerformChecking(arg interface{}, ba
 		msg := fmt.Sprintf("hotspot throttling check blocked, threshold is <= 0, arg: %v", arg)
 		return base.NewTokenResultBlockedWithCause(base.BlockTypeHotSpotParamFlow, msg, c.BoundRule(), nil)
 	}
-	intervalCostTime := int64(math.Round(float64(batchCount * c.durationInSec * 1000 / tokenCount)))
+	// The pass times of a value are batch*duration/threshold apart, in whole milliseconds: round UP.
+	// (The integer quotient rounded down: 333 ms for 3 per second, i.e. 4 requests inside a second,
+	// and 0 ms above 1000 per second, i.e. no shaping at all.)
+	intervalCostTime := mulDiv(batchCount, c.durationInSec*1000, 1)
+	if rem := intervalCostTime % tokenCount; rem != 0 {
+		intervalCostTime = intervalCostTime/tokenCount + 1
+	} else {
+		intervalCostTime = intervalCostTime / tokenCount
+	}
 	for {
 		currentTimeInMs := int64(util.CurrentTimeMillis())
 		lastPassTimePtr := timeCounter.AddIfAbsent(arg, &currentTimeInMs)
